@@ -285,6 +285,52 @@ func TestSub_collisions(t *testing.T) {
 	})
 }
 
+// ---------------------------------------------------------------------------------------
+// wraps: a call is answered from its own arguments whatever the number of calls since the same codon was last seen - in
+// particular when that number is one at which an 8- or 16-bit call counter, epoch or generation stamp comes round again.
+
+type WrapCase struct {
+	Codon    string `json:"codon"`
+	First    int    `json:"first_table"`
+	Then     int    `json:"then_table"`
+	Distance int    `json:"calls_between"`
+}
+
+func checkWrap(c WrapCase) error {
+	g, _ := ref.GeneticCodeByID(c.Then)
+	filler := "GGG"
+	if c.Codon == filler {
+		filler = "CCC"
+	}
+	a, b := codon.GetCodonTable(c.First), codon.GetCodonTable(c.Then)
+	_, _ = translate(c.Codon, a)
+	for i := 0; i < c.Distance; i++ {
+		_, _ = translate(filler, a)
+	}
+	got, err := translate("ATG"+c.Codon+c.Codon, b)
+	if want := g.TranslateRef("ATG" + c.Codon + c.Codon); err != nil || got != want {
+		return vk.Errf("Translate(%q, table %d) = %q (err %v), NCBI gives %q - %d calls after the codon %s was last translated, then with table %d", "ATG"+c.Codon+c.Codon, c.Then, got, err, want, c.Distance+1, c.Codon, c.First)
+	}
+	return nil
+}
+
+var subWraps = vk.Register(&vk.Sub[WrapCase]{Name: "wraps", Check: checkWrap, NonTrivial: func(WrapCase) bool { return true }})
+
+func TestSub_wraps(t *testing.T) {
+	vk.RunEnum(t, subWraps, "three codons that tables 1 and 2 (and 11 and 6) assign differently, translated with one table, then 254..257 and 65534..65537 calls on another codon, then translated with the other table", true, func(yield func(WrapCase) bool) {
+		for _, d := range []int{254, 255, 256, 257, 65534, 65535, 65536, 65537} {
+			for _, p := range []struct {
+				cd   string
+				a, b int
+			}{{"AGA", 1, 2}, {"TGA", 1, 2}, {"ATA", 2, 1}, {"TAA", 11, 6}} {
+				if !yield(WrapCase{Codon: p.cd, First: p.a, Then: p.b, Distance: d}) {
+					return
+				}
+			}
+		}
+	})
+}
+
 func TestReplay(t *testing.T) { vk.Replay(t) }
 
 // native coverage-guided fuzzing over the same generator and oracle (thorough tier)
